@@ -94,7 +94,7 @@ def buildWorlds (ds : List (Decl × List Nat)) : Array (World × ClassSrc) :=
   (ds.foldl step (#[], World.init, 0)).1
 
 def helperD (h : Helper) (s : Stub.Sig) : Stub.Sig :=
-  ⟨helperPrefix h ++ s.params.map (fun p => ⟨p.name, true⟩), s.kw⟩
+  ⟨helperPrefix h ++ helperKeep h (s.params.map (fun p => ⟨p.name, true⟩)), s.kw⟩
 
 def reportD (dflt apd : Bool) (label : String) (w : World) (src : ClassSrc) : Json :=
   let c := build w src
@@ -137,6 +137,14 @@ partial def annOfJson (j : Json) : Except String Ann :=
       return .lst (← (← x.getArr?).toList.mapM annOfJson)
     if (optField j "lit").isSome then return .lit
     throw s!"ann: unknown {j.compress}"
+
+/-- a field as `get_type_info` dispatches on it (Sem/StubText.lean `FTy`); a bare annotation is a leaf -/
+partial def ftyOfJson (j : Json) : Except String FTy := do
+  if let some x := optField j "opt" then return .opt (← ftyOfJson x)
+  if let some x := optField j "union" then return .union (← (← x.getArr?).toList.mapM ftyOfJson)
+  if let some x := optField j "map" then return .map (← (← x.getArr?).toList.mapM ftyOfJson)
+  if let some x := optField j "leaf" then return .leaf (← annOfJson x)
+  return .leaf (← annOfJson j)
 
 def kindStr : PKind → String
   | .po => "po" | .pk => "pk" | .va => "va" | .ko => "ko" | .vk => "vk"
@@ -182,8 +190,8 @@ def textClass (sigFor : Nat → Option (Stub.Sig × String)) (j : Json) : Except
   let annsL ← (← (← j.getObjVal? "anns").getArr?).toList.mapM fun kv => do
     let a ← kv.getArr?
     match a.toList with
-    | [k, v] => pure ((← k.getStr?), (← annOfJson v))
-    | _ => throw "text: anns entry must be [name, ann]"
+    | [k, v] => pure ((← k.getStr?), typeInfo (← ftyOfJson v))
+    | _ => throw "text: anns entry must be [name, field shape]"
   let anns : String → Ann := fun n => ((annsL.find? (fun kv => kv.1 == n)).map (·.2)).getD anyAnn
   let bases ← match optField j "bases" with
     | none => pure []
